@@ -161,5 +161,38 @@ def run(facts, rep, tier):
         else:
             rep.violation("C11-R3", "%s|reaches-update" % hf.def_, "does not reach Database::update_document: the edit is not applied", hf.loc)
 
+    # R3b: the update is applied on every path of the handler (no "stale edit" / "nothing changed" shortcut in front of it)
+    rep.rule("C11-R3b", "Every edit notification is applied: in Server::handle_did_{change,save}_text_document the call to Database::update_document is not preceded by an early return and "
+             "is not nested in a condition, except the audited `params.text.map(..)` of didSave (a save without text carries no edit).")
+    from .common import ctx as _ctx
+    for h in want.values():
+        hf = facts.fn("Server::" + h)
+        c_ = _ctx(hf)
+        ups = [x for x in fb.walk(hf.body) if x.get("k") == "mcall" and (fb.callee(x) or "").endswith(("Database::update_document", "Database::insert_document"))]
+        key = hf.def_ + "|update-on-every-path"
+        if not ups:
+            rep.violation("C11-R3b", key, "no call to Database::update_document", hf.loc)
+            continue
+        u = ups[0]
+        rets = [r_ for r_ in fb.walk(hf.body, into_closures=False) if r_.get("k") == "ret" and (r_.get("s") or [0])[0] < (u.get("s") or [0])[0]]
+        conds = []
+        for p_ in c_.parents(u):
+            if p_.get("k") in ("if", "match"):
+                conds.append(fb.show(p_.get("c") or p_.get("e"))[:60])
+            if p_.get("k") == "closure":
+                host = [q_ for q_ in c_.parents(p_)[:2] if q_.get("k") == "mcall" and p_ in q_.get("args", [])]
+                if host:
+                    hc = fb.show_canon(hf, host[0]["recv"]).replace(" ", "")
+                    if not (host[0]["name"] in ("map", "for_each", "inspect") and hc in ("P1.text", "P1.text.clone()", "P1.text.as_ref()", "P1.text.as_deref()")):
+                        conds.append("%s(..) on %s" % (host[0]["name"], fb.show(host[0]["recv"])[:40]))
+        if rets:
+            g_ = [p_ for p_ in c_.parents(rets[0]) if p_.get("k") in ("if", "match")]
+            rep.violation("C11-R3b", key, "%s returns early under `%s` before the edit is applied: notifications for which that holds are dropped silently (the note keeps its previous text)" % (
+                fb.last_seg(hf.def_), fb.show(g_[0].get("c") or g_[0].get("e"))[:70] if g_ else "?"), "%s:%s" % (hf.file, rets[0].get("ln")))
+        elif conds:
+            rep.violation("C11-R3b", key, "the edit is applied only under %s" % conds, "%s:%s" % (hf.file, u.get("ln")))
+        else:
+            rep.ok("C11-R3b", key, "update_document is reached on every path", "%s:%s" % (hf.file, u.get("ln")))
+
     # R2: panic inventory below the notification path
     panics.inventory(facts, rep, "C11-R2", [on_notif.def_], floor=40, prop="C11")
